@@ -614,6 +614,8 @@ class Acc(object):
         self.comparisons = set()
         self.anomalies = []
         self.evals = 0
+        self.direct4 = 0
+        self.direct4_fail = 0
 
     def fail(self, sig, size_key, failure):
         self.sigs[sig] = self.sigs.get(sig, 0) + 1
@@ -790,17 +792,21 @@ def check_tuple(shape, prs, seed, acc, forces=(False, True),
             if cross_every and (acc.evals % cross_every == 0):
                 cross_check(built, keys, mask, seed, force, failed, sel_t,
                             moved, acc)
-            elif not failed and len(acc.samples) < 2 and prs and \
-                    mask is not None and 0 < popcount(mask) < m and \
-                    (mask * 2654435761 + seed) % 97 == 0:
+            elif not failed and len(acc.samples) < 1 and \
+                    mask is not None and 0 < len(sel_t) < len(prs) and \
+                    (mask * 2654435761 + seed) % 7 == 0:
                 acc.samples.append({
                     'case': make_case(shape, prs, force,
                                       status_of_mask(keys, mask, seed)),
                     'result': {'queued_prs': prep.queued,
                                'selected': list(sel_t),
                                'moved': show(moved)}})
-        # genuinely 4-valued enumeration (no green/non-green abstraction)
+        # genuinely 4-valued enumeration (no green/non-green abstraction):
+        # every one of the 4^m assignments is run and judged by the
+        # dictionary oracle; its outcome must also equal the outcome of the
+        # run of its green/non-green pattern (what the abstraction claims)
         if not force and 0 < m <= direct4_max_m:
+            pattern_run = {}
             for combo in itertools.product(STATUSES, repeat=m):
                 assign = dict(zip(shas, combo))
                 sel_t, moved, err = prep.evaluate(assign)
@@ -808,35 +814,26 @@ def check_tuple(shape, prs, seed, acc, forces=(False, True),
                 exp_sel, exp_mv = oracle(shape, prs, status, False)
                 green = sum(1 << i for i, c4 in enumerate(combo)
                             if c4 == GREEN)
-                # the fast judgement of the corresponding pattern must be
-                # what the dictionary oracle says on the 4-valued case
-                bad = (set(sel_t) != exp_sel or
-                       moved != {d: built.qw[k] for d, k in exp_mv.items()})
-                acc.direct4 = getattr(acc, 'direct4', 0) + 1
+                acc.direct4 += 1
                 if exp_sel != oracle_fast(green):
                     acc.cross_mismatch.append(
                         {'what': 'fast oracle != dict oracle',
                          'case': make_case(shape, prs, False, status)})
-                if bad:
-                    acc.direct4_fail = getattr(acc, 'direct4_fail', 0) + 1
-                    # must coincide with a failure of the pattern run
+                bad_move = [d for d, s4 in moved.items()
+                            if status.get(built.sha_key.get(s4)) != GREEN]
+                if (set(sel_t) != exp_sel or bad_move or err or moved != {
+                        d: built.qw[k] for d, k in expected_moves_for(
+                            shape, prs, set(sel_t)).items()}):
+                    acc.direct4_fail += 1
+                if green not in pattern_run:
                     rot_st = status_of_mask(keys, green, seed)
-                    a2 = {built.qw[k]: v for k, v in rot_st.items()}
-                    sel2, moved2, _ = prep.evaluate(a2)
-                    if (sel2, moved2) != (sel_t, moved):
-                        acc.cross_mismatch.append(
-                            {'what': '4-valued run differs from its '
-                             'green/non-green pattern run',
-                             'case': make_case(shape, prs, False, status)})
-                else:
-                    rot_st = status_of_mask(keys, green, seed)
-                    a2 = {built.qw[k]: v for k, v in rot_st.items()}
-                    sel2, moved2, _ = prep.evaluate(a2)
-                    if (sel2, moved2) != (sel_t, moved):
-                        acc.cross_mismatch.append(
-                            {'what': '4-valued run differs from its '
-                             'green/non-green pattern run',
-                             'case': make_case(shape, prs, False, status)})
+                    pattern_run[green] = prep.evaluate(
+                        {built.qw[k]: v for k, v in rot_st.items()})[:2]
+                if pattern_run[green] != (sel_t, moved):
+                    acc.cross_mismatch.append(
+                        {'what': '4-valued run differs from the run of its '
+                         'green/non-green pattern',
+                         'case': make_case(shape, prs, False, status)})
     return built
 
 
@@ -1048,7 +1045,8 @@ def enumerate_tasks(tier, seed):
             dests = destinations(sh)
             for k in range(0, 5):
                 for prs in itertools.product(dests, repeat=k):
-                    tasks.append((sh, prs, {'qwf': True, 'direct4': 5}))
+                    tasks.append((sh, prs, {'qwf': True,
+                                            'direct4': 6 if k <= 3 else 0}))
         desc = ('all 28 cascade shapes x every destination tuple of 0..4 '
                 'PRs (17578 tuples) x force_merge in {False, True}; for '
                 'force_merge=False every green/non-green pattern of the '
@@ -1061,8 +1059,12 @@ def enumerate_tasks(tier, seed):
         dests = destinations(sh)
         for k in range(0, 4):
             for prs in itertools.product(dests, repeat=k):
-                tasks.append((sh, prs, {'qwf': k <= 3,
-                                        'direct4': 4 if k <= 2 else 0}))
+                # 4-valued one-by-one: m <= 4 everywhere, m <= 6 for the
+                # 2-development-version cascades (where the smallest
+                # counterexamples live)
+                tasks.append((sh, prs, {
+                    'qwf': True,
+                    'direct4': 6 if len(sh['devs']) == 2 else 4}))
         four = list(itertools.product(dests, repeat=4))
         rng.shuffle(four)
         left = budget
@@ -1116,8 +1118,8 @@ def _worker(args):
         'examples': acc.examples, 'samples': acc.samples[:1],
         'cross': acc.cross, 'cross_mismatch': acc.cross_mismatch[:3],
         'comparisons': sorted(acc.comparisons), 'anomalies': acc.anomalies,
-        'direct4': getattr(acc, 'direct4', 0),
-        'direct4_fail': getattr(acc, 'direct4_fail', 0),
+        'direct4': acc.direct4,
+        'direct4_fail': acc.direct4_fail,
         'evals': acc.evals, 'm': sum(len(oracle_targets(shape, d))
                                      for d in prs),
         't': time.time() - t0})
@@ -1228,7 +1230,8 @@ def run(tier='quick', seed=0, jobs=16, deadline_s=None):
         "code only ever evaluates `status != 'SUCCESSFUL'` on a status "
         "(recorded by an instrumented str: comparisons seen = %s); "
         "all 4^m assignments are additionally enumerated one by one for the "
-        "tuples with m <= 4 (quick; k<=2) / m <= 5 (thorough). "
+        "tuples of <= 3 PRs with m <= 6 (thorough) / m <= 4, and m <= 6 on "
+        "the 2-development-version cascades (quick). "
         "force_merge=True: one status-blind run per tuple (the stub raises "
         "on any status query; none happened), which covers every status "
         "assignment of the tuple; it counts as ONE case. build()+validate() "
@@ -1244,7 +1247,11 @@ def run(tier='quick', seed=0, jobs=16, deadline_s=None):
         % sorted(comparisons))
     res = {
         'name': NAME,
-        'scope': '%s tier: %s' % (tier, scope_desc),
+        'scope': '%s tier: %s%s' % (
+            tier, scope_desc,
+            ' -- TIMED OUT after %ds: %d of the %d tuples (the lightest '
+            'ones, tasks run heaviest first) were NOT evaluated'
+            % (deadline_s, unfinished, len(args)) if timed_out else ''),
         'cases': tot['cases'],
         'distinct_nontrivial': tot['nontrivial'],
         'rule': rule,
